@@ -122,14 +122,14 @@ def _cross_one(args) -> dict:
     return res
 
 
-def run_cross(pids: List[str], jobs: int = 16) -> List[dict]:
+def run_cross(pids: List[str], jobs: int = 16, kind: str = "equiv") -> List[dict]:
     """Every behaviour-preserving variant of every property against the rule sets of *all* properties: none may
     report a violation (a false alarm) or lose sight of the code (analysis error)."""
     tasks = []
     for owner in pids:
         mod = importlib.import_module(f"pvs.props.{owner.lower()}")
         for i, m in enumerate(getattr(mod, "MUTANTS", [])):
-            if m.get("kind") == "equiv":
+            if m.get("kind", "mutant") == kind:
                 for chk in pids:
                     if chk != owner:
                         tasks.append((owner, i, chk))
